@@ -52,6 +52,9 @@ pub struct Case {
     /// integer formats ignore it
     #[serde(default = "one")]
     pub gain: f64,
+    /// transparent mode: ratio 1 is requested as two equal rates through the hz-pair entry points (rate / rate == 1 exactly)
+    #[serde(default)]
+    pub hz_rate: Option<f64>,
 }
 fn one() -> f64 {
     1.0
@@ -152,6 +155,7 @@ where
     ensure!(g.is_finite() && g > 0.0, "bad case: gain");
     let c = &Case { a: c.a.iter().map(|v| v * g).collect(), b: c.b.iter().map(|v| v * g).collect(), ..c.clone() };
     st.class_if(!F::INT && g > 1.0, "float input above 1.0");
+    st.class_if(!F::INT && g < 1e-20, "float input below 1e-20");
     let a: Vec<F> = c.a.iter().enumerate().map(|(i, v)| F::mk(*v, i as u64)).collect();
     let peak = a.iter().flat_map(|f| f.amps()).fold(0.0f64, |m, x| m.max(x.abs()));
     let xs: Vec<f64> = c.xs.iter().copied().filter(|x| *x >= 0.0 && *x < 1.0).collect();
@@ -163,7 +167,18 @@ where
         Mode::Transparent => {
             st.class("ratio exactly 1");
             let l = a.len();
-            let outs: Vec<F> = if c.array_storage && d == 2 {
+            let outs: Vec<F> = if let Some(r) = c.hz_rate {
+                ensure!(r.is_finite() && r > 0.0, "bad case: rate must be > 0");
+                st.class("ratio 1 as two equal rates");
+                if c.array_storage {
+                    Converter::from_hz_to_hz(signal::from_iter(a.clone()), new_sinc::<F>(d), r, r).take(l + 2 * d + 2).collect()
+                } else {
+                    // a converter created at another ratio and set to equal rates before the first frame
+                    let mut cv = signal::from_iter(a.clone()).from_hz_to_hz(new_sinc::<F>(d), 3.0 * r, r);
+                    cv.set_hz_to_hz(r, r);
+                    cv.take(l + 2 * d + 2).collect()
+                }
+            } else if c.array_storage && d == 2 {
                 let sinc = Sinc::new(Fixed::from([F::EQUILIBRIUM; 4]));
                 Converter::scale_playback_hz(signal::from_iter(a.clone()), sinc, 1.0).take(l + 2 * d + 2).collect()
             } else {
@@ -220,8 +235,8 @@ where
             if d < 4 {
                 return Ok(());
             }
-            let cv = if c.a.is_empty() { 0.5 } else { c.a[0] };
-            let cv = if cv.abs() < 0.05 { 0.5 } else { cv };
+            let cv = if c.a.is_empty() { 0.5 * g } else { c.a[0] };
+            let cv = if cv.abs() < 0.05 * g { 0.5 * g } else { cv };
             let frame = F::mk(cv, 0);
             let mut s = new_sinc::<F>(d);
             feed(&mut s, &vec![frame; 2 * d + c.b.len()]);
@@ -306,9 +321,15 @@ pub fn case_strategy(max_depth: usize) -> impl Strategy<Value = Case> {
             proptest::collection::vec(x_strategy(), 1..5),
             prop_oneof![1 => Just(1.0), 3 => (0.1f64..4.0)],
             any::<bool>(),
-            prop_oneof![3 => Just(1.0), 2 => proptest::sample::select(vec![4.0, 3.0, 1000.0, 1e-3, 65536.0, 1e6]), 1 => (0.5f64..50.0)],
+            prop_oneof![3 => Just(1.0), 2 => proptest::sample::select(vec![4.0, 3.0, 1000.0, 1e-3, 65536.0, 1e6, 1e-21, 1e-24, 1e-30, 1e-12]), 1 => (0.5f64..50.0)],
+            prop_oneof![
+                2 => Just(None),
+                1 => proptest::sample::select(vec![44100.0, 48000.0, 44000.0, 22000.0, 11000.0, 88000.0, 49.0, 98.0, 103.0, 0.1, 1e-3]).prop_map(Some),
+                1 => (1u32..200_000).prop_map(|r| Some(r as f64)),
+                1 => (1e-3f64..1e6).prop_map(Some),
+            ],
         )
-            .prop_map(move |(mut a, mut b, scale_pow, xs, ratio, array_storage, gain)| {
+            .prop_map(move |(mut a, mut b, scale_pow, xs, ratio, array_storage, gain, hz_rate)| {
                 // keep sums and scaled copies inside [-1, 1]
                 if mode == Mode::Linearity {
                     for v in a.iter_mut().chain(b.iter_mut()) {
@@ -320,7 +341,7 @@ pub fn case_strategy(max_depth: usize) -> impl Strategy<Value = Case> {
                         }
                     }
                 }
-                Case { ft: FTS[f], depth, array_storage, mode, a, b, scale_pow, xs, ratio, gain }
+                Case { ft: FTS[f], depth, array_storage, mode, a, b, scale_pow, xs, ratio, gain, hz_rate }
             })
     })
 }
@@ -328,11 +349,11 @@ pub fn case_strategy(max_depth: usize) -> impl Strategy<Value = Case> {
 pub fn run(ctx: &mut Ctx) {
     ctx.set_rule(
         "cases are (frame format out of f64, f32, [f64;2], i16, i32; depth 1..=16 (thorough 64); zero-initialised ring storage; history of 0..6 x depth frames (priming included); fractions x from {0, k/1024, random, 0.5, 1-2^-53}; \
-         one of five checks: converter at ratio exactly 1, linearity (superposition and power-of-two scaling), constant input on a primed buffer with depth >= 4, reset, converter at a random ratio); integer inputs limited to 0.15 full scale; \
+         float inputs scaled by a gain from 1e-30 to 1e6; one of five checks: converter at ratio exactly 1 (scale 1.0, or two equal rates through from_hz_to_hz / set_hz_to_hz), linearity (superposition and power-of-two scaling), constant input on a primed buffer with depth >= 4, reset, converter at a random ratio); integer inputs limited to 0.15 full scale; \
          non-trivial: depth <= 2, history shorter than depth, x != 0, or reset",
     );
     ctx.assume("transparent: |out_n - source[n-depth]| <= 1e-12 peak (+1 LSB for integer formats); linearity within (12 depth + 12) eps sum|inputs| for floats, (6 depth + 3) LSB plus input truncation for integer formats; constant input within 1 % (+ (2 depth + 1) LSB of per-term truncation for integer formats); reset compared bit for bit with a fresh interpolator");
-    for c in ["depth <= 2", "history shorter than depth (priming)", "ratio exactly 1", "linearity", "constant input, primed, depth >= 4", "reset", "converter at a random ratio", "integer format", "float input above 1.0"] {
+    for c in ["depth <= 2", "history shorter than depth (priming)", "ratio exactly 1", "linearity", "constant input, primed, depth >= 4", "reset", "converter at a random ratio", "integer format", "float input above 1.0", "float input below 1e-20", "ratio 1 as two equal rates"] {
         ctx.require_class(c);
     }
     let max_depth = ctx.pick(16usize, 64);
@@ -344,12 +365,13 @@ pub fn run(ctx: &mut Ctx) {
         for depth in 1..=max_depth {
             for l in [0, 1, depth.saturating_sub(1), depth, depth + 1, 2 * depth, 3 * depth + 1] {
                 let a: Vec<f64> = (0..l).map(|i| (((i * 7919) % 201) as f64 - 100.0) / 101.0).collect();
-                cases.push(Case { ft, depth, array_storage: true, mode: Mode::Transparent, a, b: vec![], scale_pow: 0, xs: vec![0.0], ratio: 1.0, gain: if l % 2 == 0 { 1.0 } else { 5.0 } });
+                cases.push(Case { ft, depth, array_storage: true, mode: Mode::Transparent, a, b: vec![], scale_pow: 0, xs: vec![0.0], ratio: 1.0, gain: if l % 2 == 0 { 1.0 } else { 5.0 }, hz_rate: [None, Some(44000.0), Some(49.0), Some(44100.0)][(depth + l) % 4] });
             }
             if depth >= 4 {
                 let xs: Vec<f64> = (0..64).map(|k| k as f64 / 64.0).collect();
-                cases.push(Case { ft, depth, array_storage: false, mode: Mode::Constant, a: vec![0.8], b: vec![0.0; depth], scale_pow: 0, xs: xs.clone(), ratio: 1.0, gain: 3.0 });
-                cases.push(Case { ft, depth, array_storage: false, mode: Mode::Constant, a: vec![-0.3], b: vec![], scale_pow: 0, xs, ratio: 1.0, gain: 1.0 });
+                cases.push(Case { ft, depth, array_storage: false, mode: Mode::Constant, a: vec![0.8], b: vec![0.0; depth], scale_pow: 0, xs: xs.clone(), ratio: 1.0, gain: 3.0, hz_rate: None });
+                cases.push(Case { ft, depth, array_storage: false, mode: Mode::Constant, a: vec![0.6], b: vec![], scale_pow: 0, xs: xs.clone(), ratio: 1.0, gain: 1e-22, hz_rate: None });
+                cases.push(Case { ft, depth, array_storage: false, mode: Mode::Constant, a: vec![-0.3], b: vec![], scale_pow: 0, xs, ratio: 1.0, gain: 1.0, hz_rate: None });
             }
         }
     }
